@@ -589,8 +589,9 @@ def run(ctx: Context, rep) -> None:
                           "no value-transforming model / field option"),
                message="a persisted model must validate, not rewrite: the "
                "reopened text would differ from the text that was written")
-
-
+    # nothing read from the dataset's files / the environment is memoised
+    from sa.rules import shared as _shm
+    _shm.check_no_memo(ctx, rep, "C20.memo")
 
 _U = "src/sedpack/io/utils.py"
 _DB = "src/sedpack/io/dataset_base.py"
